@@ -91,6 +91,20 @@ def cases_for(tier):
             w = r.choice([1, 10, 40, 79, 200])
             cases.append(('enum', t, dict(width=w, max_seq_len=msl, indent=r.choice([1, 4]),
                                           sort_dict_keys=r.random() < 0.5)))
+    # long containers around the limits that exist in the package (PrettyContext's own default of
+    # 1000, powers of two): the limit just below / at / above the length, None, and huge limits
+    import sys
+    longs = (999, 1000, 1001, 1500) if tier == 'quick' else (255, 256, 257, 999, 1000, 1001, 1023, 1024, 1025, 1500, 2049, 5000)
+    for ln in longs:
+        shapes = [('list', [('int', i % 7) for i in range(ln)]),
+                  ('tuple', [('int', i % 7) for i in range(ln)]),
+                  ('set', [('int', i) for i in range(ln)]),
+                  ('frozenset', [('int', i) for i in range(ln)]),
+                  ('dict', [(('int', i), ('int', 0)) for i in range(ln)]),
+                  ('dict', [(('str', 'a'), ('list', [('list', [('int', i % 3) for i in range(ln)])]))])]
+        for t in shapes:
+            for msl in (None, ln - 1, ln, ln + 1, 1000, 10 ** 9, sys.maxsize):
+                cases.append(('long', t, dict(width=r.choice([20, 79]), max_seq_len=msl)))
     n = 1200 if tier == 'quick' else 20000
     for _ in range(n):
         t = valgen.rand_val(r, r.randint(4, 40), {'sub', 'call'})
@@ -102,7 +116,9 @@ def cases_for(tier):
 
 
 RULE = ('list/tuple/set/frozenset/dict of length 0,1,2,3,4,6 (native and subclass), nested in each other, as dict '
-        'values, as call arguments and keywords, x max_seq_len in {1,2,3,5,None,1000} x widths x sort on/off; seeded '
+        'values, as call arguments and keywords, x max_seq_len in {1,2,3,5,None,1000} x widths x sort on/off; containers '
+        'of 999/1000/1001/1500 (thorough: also 255..257, 1023..1025, 2049, 5000) elements x max_seq_len in {None, '
+        'len-1, len, len+1, 1000, 10**9, sys.maxsize}; seeded '
         'random trees up to 40 nodes. Oracle: eval(output) is type-exactly the value with every container cut to its '
         'first N elements in iteration order (sorted order for sorted dicts); the COMMENT tokens are exactly the '
         'notices "...and K more elements" with K = len - N for the longer containers, in document order; with None: '
